@@ -712,3 +712,27 @@ def gen_eval_traces():
     out.append(",\n".join('  ("%s", "%s", [%s])' % (f, a, ", ".join('"%s"' % e.replace("\\", "\\\\").replace('"', '\\"') for e in ev)) for f, a, ev in rows))
     out += ["]", "", "end Generated", ""]
     return "\n".join(out)
+
+
+def gen_cli():
+    """main.rs: for `run`, `entry` and `main`, in textual order: the stage calls, the error propagations (`?`), every write to standard
+    output / standard error and every `exit(n)`"""
+    src = strip_hooks(strip_comments(strip_tests(read("src/main.rs"))))
+    pat = re.compile(r"\b(eprintln|println|eprint|print|write|writeln)!\s*\(|\bexit\s*\(\s*(\d+)\s*\)|\b(tokenize|parse|type_check|evaluate|run|entry|read_to_string)\s*\(|(\?)\s*[;)]|\b(panic|unreachable|todo|unimplemented)!")
+    rows = []
+    for fn in ("run", "entry", "main"):
+        body = fn_body(src, fn)
+        ev = []
+        for m in pat.finditer(body):
+            if m.group(1): ev.append(m.group(1) + "!")
+            elif m.group(2) is not None: ev.append("exit " + m.group(2))
+            elif m.group(3): ev.append("call " + m.group(3))
+            elif m.group(4): ev.append("?")
+            else: ev.append(m.group(5) + "!")
+        rows.append((fn, ev))
+    out = ["/-! GENERATED by extract/arms.py from /repo/src/main.rs — do not edit. -/", "", "namespace Generated", "",
+           "/-- (function, events in textual order: `call f`, `?` (an error is returned to the caller), `println!` / `eprintln!` …, `exit n`) -/",
+           "def cliEvents : List (String × List String) := ["]
+    out.append(",\n".join('  ("%s", [%s])' % (f, ", ".join(f'"{e}"' for e in ev)) for f, ev in rows))
+    out += ["]", "", "end Generated", ""]
+    return "\n".join(out)
